@@ -40,6 +40,42 @@ def run(chk):
     chk.floor('operation instances analysed', len(runs), 42)
     conversions(chk, lab)
     chk.guard('occupancy-agreement', 'map_to', lambda: occupancy_agreement(chk))
+    chk.guard('failed-call-purity', 'arbitrary entry contents', lambda: stale_entries(chk))
+
+
+def stale_entries(chk, rule='failed-call-purity', runs=None):
+    """The same write discipline for *arbitrary* slot contents. The outcome tables above range over entries that are all-zero or PRESENT
+    (what map_to stores); `update_flags` / `set_flags_pN_entry` with flags lacking PRESENT leave entries that are neither - a huge-page
+    leaf or a table link that is temporarily not present. For those no outcome is documented, but the structural clauses still decide
+    what a call may do to them: a failing call writes no leaf slot, a fresh table goes only into a slot that tested all-zero, parent flags
+    are ORed only into an entry known not to carry HUGE_PAGE, and update_flags on a huge page keeps HUGE_PAGE whatever the flags."""
+    lab = MapperLab(chk, invariant=False)
+    n = 0
+    for impl in IMPLS:
+        for size in SIZES3:
+            key = (impl, size, 'map_to_with_table_flags')
+            fn_, pss = lab.run(impl, size, 'map_to_with_table_flags', map_args)
+            n += 1
+            purity(chk, lab, key, pss, lab.I.fn[fn_]['loc'], rule=rule, tag=' (arbitrary entry contents)')
+            if size == 'Size4KiB':
+                continue
+            # update_flags of a huge page, flags with or without PRESENT: the leaf keeps its address and its HUGE_PAGE mark
+            fn_, pss = lab.run(impl, size, 'update_flags', lambda lab_, size_: [lab_.flags('fl', present=False)])
+            n += 1
+            leaf = SM.LEAF_LEVEL[size]
+            bad = set()
+            seen = 0
+            for ps in pss:
+                for s_ in ps.steps:
+                    if s_.k == 'write' and s_.level == leaf and isinstance(s_.new, BV) and isinstance(s_.old, BV):
+                        seen += 1
+                        if s_.new.bits[7] != 1:
+                            bad.add('HUGE_PAGE of the rewritten leaf is %r' % (s_.new.bits[7],))
+                        if any(s_.new.bits[i] != s_.old.bits[i] for i in range(30 if size == 'Size1GiB' else 21, 52)):
+                            bad.add('frame address changed')
+            chk.ob(rule, '%s: the rewritten leaf keeps its frame and HUGE_PAGE for every flags argument (with or without PRESENT)' % label((impl, size, 'update_flags')),
+                   seen > 0 and not bad, '; '.join(sorted(bad)) or 'no leaf write seen', lab.I.fn[fn_]['loc'])
+    chk.floor('operation instances analysed with arbitrary entry contents', n, 10)
 
 
 def occupancy_agreement(chk):
@@ -124,7 +160,7 @@ def outcome_table(chk, lab, key, pss, site):
             chk.ob('outcome-table', '%s in state %s' % (label(key), '/'.join(state)), got == {want}, 'paths give %s, documented outcome %s' % (sorted(got), want), site)
 
 
-def purity(chk, lab, key, pss, site):
+def purity(chk, lab, key, pss, site, rule='failed-call-purity', tag=''):
     impl, size, op = key
     leaf = SM.LEAF_LEVEL[size]
     if op.startswith('set_flags_p'):
@@ -147,7 +183,7 @@ def purity(chk, lab, key, pss, site):
                 bad_parent.append('write below the leaf level (level %d)' % s.level)
                 continue
             # parent entry: fresh link or flag widening of a non-huge entry
-            known = knowledge(ps, s.table, s.idx, i)
+            known = knowledge(ps, s.table, s.idx, i, getattr(lab, 'invariant', True))
             old, new = s.old, s.new
             fresh = isinstance(old, BV) and old.is_const() and old.value() == 0 and isinstance(new, BV) and new.bits[0] == 1 and new.bits[7] == 0 and \
                 any(isinstance(b, tuple) and b[0] == 'v' and b[1].startswith('allocate_frame#') for b in new.bits[12:52])
@@ -170,8 +206,8 @@ def purity(chk, lab, key, pss, site):
             if op.startswith('set_flags_p'):
                 continue
             bad_parent.append('level-%d entry rewritten: %r -> %r' % (s.level, old, new))
-    chk.ob('failed-call-purity', '%s: no write to the leaf slot on any failing path' % label(key), not bad_leaf, '; '.join(sorted(set(bad_leaf))), site)
-    chk.ob('failed-call-purity', '%s: parent entries are only linked when unused or widened when known not to be a huge page' % label(key), not bad_parent, '; '.join(sorted(set(bad_parent))), site)
+    chk.ob(rule, '%s%s: no write to the leaf slot on any failing path' % (label(key), tag), not bad_leaf, '; '.join(sorted(set(bad_leaf))), site)
+    chk.ob(rule, '%s%s: parent entries are only linked when unused or widened when known not to be a huge page' % (label(key), tag), not bad_parent, '; '.join(sorted(set(bad_parent))), site)
 
 
 def guards(chk, lab, key, pss, site):
